@@ -22,8 +22,9 @@ TRUSTED = ["hand-written Gallina model coq/Model/Bsm.v of src/bsm/mod.rs on top 
            "signature, header byte) is computed from them; equality of k256 / rfc6979 / sha2 with the references is validated by this run, not proved",
            "the run evaluates the digest-sharing forms sign_with_digest / verify_with_digest (proved equal to sign_impl / verify_message_impl) over "
            "the BigZ instance with single-entry caches (memo_prims, proved extensionally equal to fast_prims)"]
-ASSUMPTIONS = ["secp256k1_group (Proofs/EcdsaSecp.v): on valid points the concrete formulas form an abelian group with the Z-action smul (n prime is proved: Proofs/SecpPrimes.v), "
-               "G has order exactly n, lift_x inverts (x, parity) — explicit premise of C12_bsm_complete and C12_bsm_other_message_partial; the "
+ASSUMPTIONS = ["secp256k1_group (Proofs/EcdsaSecp.v): on valid points padd is associative, smul (a+b) P = padd (smul a P) (smul b P), "
+               "smul (a*b) P = smul a (smul b P) (closure of padd/pneg/smul, commutativity, inverses, lift_x inverts (x, parity), G of order exactly n, "
+               "n and p prime are proved: Proofs/SecpGroupPartial.v, Proofs/SecpPrimes.v) — explicit premise of C12_bsm_complete and C12_bsm_other_message_partial; the "
                "abstract-group theorems used are ecdsa_correct, recover_signer, recover_other_z of Proofs/EcdsaAbstract.v",
                "nonce_x_small: the x coordinate of k*G is below n for the RFC 6979 nonce (k256 never records the x-reduced recovery bit; "
                "fails with probability about 2^-128) — explicit premise of the completeness theorem",
